@@ -117,3 +117,36 @@ CHECKS["C06"] = dict(
     design_ref="DESIGN.md 9/C06, 7.1",
     level_text="Exhaustive within bounds on the real containers under the controlled scheduler; each complete execution is checked by a Wing-Gong linearizability search against a sequential FIFO.",
 )
+
+CHECKS["C07"] = dict(
+    title="bounded Vyukov queue",
+    units=[dict(name="bounded", src="harness/bounded.cpp")],
+    rule=LIN_RULE,
+    explanation="VyukovMPMCCycleQueue value (dynamic and static buffers, capacities 2, 4, 8), intrusive, and single-consumer front()/pop_front() variants, with the ring cycled "
+                "0..3 laps before the window; histories must be linearizable to a bounded FIFO where enqueue fails only at size == capacity and dequeue only at size == 0",
+    design_ref="DESIGN.md 9/C07",
+    level_text="Exhaustive within bounds on the real queue; back-off waits of the claimed-but-unpublished cell are yield choices of the scheduler.",
+)
+CHECKS["C09"] = dict(
+    title="stacks are linearizable LIFO",
+    units=[dict(name="stacks1", src="harness/stacks.cpp", cxxflags=["-DFAMILY=1"]),
+           dict(name="stacks2", src="harness/stacks.cpp", cxxflags=["-DFAMILY=2"]),
+           dict(name="stacks3", src="harness/stacks.cpp", cxxflags=["-DFAMILY=3"], args=["--property", "C09"], ldflags=BOOST)],
+    rule=LIN_RULE,
+    aux_names=["quiescent_states", "elimination_collisions", "aux2", "aux3"],
+    explanation="TreiberStack (HP in-place and classic scan, DHP; elimination off, and on with collision arrays of 1 and 2 slots, static and dynamic, spin and mutex slot locks, "
+                "2-poll and default elimination waits) and FCStack (elimination on/off); includes the ABA program and 3-thread programs in which a push and a pop meet in the collision array "
+                "(coverage.aux_counters.elimination_collisions counts executions' eliminated pairs)",
+    design_ref="DESIGN.md 9/C09",
+    level_text="Exhaustive within bounds on the real stacks; LIFO linearizability of every complete execution.",
+)
+CHECKS["C10"] = dict(
+    title="FCDeque is a linearizable deque",
+    units=[dict(name="stacks3", src="harness/stacks.cpp", cxxflags=["-DFAMILY=3"], args=["--property", "C10"], ldflags=BOOST)],
+    rule=LIN_RULE,
+    aux_names=["quiescent_states", "elimination_collisions", "aux2", "aux3"],
+    explanation="FCDeque over std::deque and boost::container::deque, elimination on/off, combine pass counts default/1/2, mixed-end programs on empty and one-element deques "
+                "(the only states where a cross-end collision is legal) incl. 3-thread same-end pair + cross-end pop",
+    design_ref="DESIGN.md 9/C10",
+    level_text="Exhaustive within bounds on the real FCDeque; deque linearizability of every complete execution.",
+)
